@@ -68,8 +68,10 @@ def gen_plan(base_seed, i, tier):
         if rng.random() < 0.35 and s < nsteps - 1:
             step["crash_frac"] = rng.choice([-1, 0.0, 1.0, "W-1", "1", round(rng.random(), 4), round(rng.random(), 4),
                                              "op:%.3f" % rng.random(), "op:%.3f" % rng.random(), "op:0.999", "wc:%.3f" % rng.random(), "wc:%.3f" % rng.random()])
-        elif rng.random() < 0.1 and s < nsteps - 1:
+        elif rng.random() < 0.12 and s < nsteps - 1:
             step["enospc_frac"] = round(rng.random(), 3)
+        elif rng.random() < 0.12:
+            step["eio"] = [rng.choice(["replace", "read", "open_write"]), rng.randint(0, 2)]
         steps.append(step)
         if rng.random() < 0.1 and s < nsteps - 1:
             steps.append({"op": "lose", "pick": rng.getrandbits(16)})
@@ -213,6 +215,8 @@ def execute(plan):
                         kw["crash_after"] = None
                 else:
                     kw["enospc_after"] = int(step["enospc_frac"] * W)
+        if "eio" in step:
+            kw["eio"] = step["eio"]
         if "crash_abs" in step:
             kw = {{"open": "crash_open", "op": "crash_op", "wcall": "crash_wcall"}.get(step["crash_abs"][0], "crash_after"): step["crash_abs"][1]}
         res = _run(rows, cfg, step["sched_seed"], cache=True, **kw)
@@ -306,7 +310,7 @@ def shrink(plan):
                     if t["op"] == "run" and victim in t["rows"] and len(t["rows"]) > 1:
                         t["rows"].remove(victim)
                 yield p
-        for key in ("crash_frac", "enospc_frac"):
+        for key in ("crash_frac", "enospc_frac", "eio"):
             if key in s:
                 p = common.clone(plan)
                 del p["steps"][j][key]
